@@ -963,7 +963,10 @@ def run_fail_case(ctx, rep, case, tcases=None):
             if alias_read:
                 # a read through an alias is a read of the variable: its series
                 if k == 'getattr':
-                    cp = comparable(('ok', p[t]), kind)
+                    try:
+                        cp = comparable(('ok', p[t]), kind)
+                    except Exception as e:  # noqa: BLE001  (e.g. the storage of `t` was deleted: `del obj._Y`)
+                        cp = comparable(('exc', family(e)), kind)
             if sp in b.strip_self(m) and ca != cp and is_object_attribute(a, sp):
                 rep.violate(KEY_ALIAS_IS_ATTRIBUTE, f'{where}: `obj.{sp}` is found by normal attribute look-up '
                             f'({short(ra)}), so the alias {sp!r} -> {t!r} is never consulted; the variable holds '
